@@ -4,6 +4,7 @@ import (
 	"fmt"
 	"reflect"
 	"strings"
+	"sync/atomic"
 	"time"
 
 	"k8s.io/klog"
@@ -48,6 +49,9 @@ type RemoteFlowControlWrapper interface {
 	Sync(proxyv1alpha1.RateLimitItemConfiguration)
 	Config() proxyv1alpha1.RateLimitItemConfiguration
 	Done() <-chan struct{}
+	// Synced reports whether the wrapper has a limiter behind it, i.e. Sync has
+	// completed at least once. Requests must not be given the wrapper before that.
+	Synced() bool
 }
 
 func NewFlowControlCache(cluster, name, clientID string, globalCounterProvider GlobalCounterProvider) FlowControlCache {
@@ -194,6 +198,12 @@ type remoteWrapper struct {
 	remoteConfig     proxyv1alpha1.RateLimitItemConfiguration
 	flowControlCache *flowControlCache
 	stopCh           chan struct{}
+	// synced is set (atomically) once GlobalCounterFlowControl has been assigned
+	synced uint32
+}
+
+func (f *remoteWrapper) Synced() bool {
+	return atomic.LoadUint32(&f.synced) == 1
 }
 
 func (f *remoteWrapper) Config() proxyv1alpha1.RateLimitItemConfiguration {
@@ -211,6 +221,9 @@ func (f *remoteWrapper) Sync(limitItem proxyv1alpha1.RateLimitItemConfiguration)
 
 	defer func() {
 		f.remoteConfig = limitItem
+		if f.GlobalCounterFlowControl != nil {
+			atomic.StoreUint32(&f.synced, 1)
+		}
 	}()
 
 	newType := flowcontrol.GetFlowControlTypeFromLimitItem(limitItem.LimitItemDetail)
